@@ -379,7 +379,7 @@ def first_violation(m, results, prop=None):
     return None, None
 
 
-def shrink_lifetime(prop, m, lt, vclass, repo, tier, max_tests=90):
+def shrink_lifetime(prop, m, lt, vclass, repo, tier, max_tests=90, table=None):
     """segments first (whole histories), then ops inside the remaining segments, then knobs"""
     used = [0]
 
@@ -387,7 +387,7 @@ def shrink_lifetime(prop, m, lt, vclass, repo, tier, max_tests=90):
         if used[0] >= max_tests or not cand["segments"]:
             return None
         used[0] += 1
-        res = run_lifetime(prop, cand, repo, tier)
+        res = run_lifetime(prop, cand, repo, tier, table=table)
         j, v = first_violation(m, res)
         if v is not None and m.violation_class(v) == vclass:
             c2 = dict(cand)
@@ -544,7 +544,7 @@ def main():
             for L, jj in ((b, jb), (a_i, j)) if jb > j else ((a_i, j), (b, jb)):
                 lt = freeze(lifetimes[L], results[L], jj)
                 lt["segments"][-1]["pristine"] = sorted(set(lt["segments"][-1].get("pristine", []) + [k]))
-                conf = run_lifetime(prop, lt, repo, tier)
+                conf = run_lifetime(prop, lt, repo, tier, table=tables.get(lt["env"]))
                 cj, cv = first_violation(m, conf, prop)
                 if cv is not None:
                     log(f"[{prop}] cross-lifetime difference at history seed {lifetimes[L]['segments'][jj]['seed']} op #{k} ({opk}): lifetime {L} deviates from a fresh process")
@@ -590,32 +590,57 @@ def main():
     harness_problem = None
     replay_paths = []
     for key, where in sorted(new_classes.items(), key=lambda kv: kv[1][0])[:4]:
-        L, j = where[0]
-        vc = m.violation_class(results[L][j]["violation"])
-        lt = results[L][j].get("cross_plan") or freeze(lifetimes[L], results[L], j)
-        log(f"[{prop}] violation class {key} in {len(where)} histories; confirming lifetime {L} segment {j} ({len(lt['segments'])} segments) in a fresh node")
-        conf = run_lifetime(prop, lt, repo, tier)
-        cj, cv = first_violation(m, conf)
+        # Object addresses are the one ambient input that is not behind a seam (CPython's allocator is not
+        # reproducible from run to run here, even with ASLR off): a failure that depends on id() reuse
+        # reproduces only with some probability. Deterministic failures reproduce at the first attempt;
+        # for the others up to 3 attempts and up to 3 histories of the class are tried.
+        conf = cj = cv = lt = tbl = None
+        attempts = 0
+        for (L, j) in where[:3]:
+            vc = m.violation_class(results[L][j]["violation"])
+            lt = results[L][j].get("cross_plan") or freeze(lifetimes[L], results[L], j)
+            log(f"[{prop}] violation class {key} in {len(where)} histories; confirming lifetime {L} segment {j} ({len(lt['segments'])} segments) in a fresh node")
+            tbl = tables.get(lt["env"])
+            loose = None
+            for _try in range(3):
+                attempts += 1
+                conf = run_lifetime(prop, lt, repo, tier, table=tbl)
+                cj, cv = first_violation(m, conf)
+                if cv is not None and m.violation_class(cv) == vc:
+                    break
+                if cv is not None and m.violation_class(cv)[:2] == vc[:2] and loose is None:
+                    loose = (conf, cj, cv)
+            if cv is not None and m.violation_class(cv) == vc:
+                break
+            if loose is not None:
+                # same oracle, same kind of operation, but another stale value / another history of the
+                # prefix: what an address-dependent failure looks like when it is run again
+                conf, cj, cv = loose
+                vc = m.violation_class(cv)
+                attempts = max(attempts, 2)
+                break
         if cv is None or m.violation_class(cv) != vc:
-            harness_problem = f"violation of lifetime {L} segment {j} did not reproduce in a fresh node: first={key} second={canon(m.violation_class(cv)) if cv else None}"
+            harness_problem = f"violation class {key} did not reproduce in a fresh node in {attempts} attempts (last: {canon(m.violation_class(cv)) if cv else None})"
             log("HARNESS-NONDETERMINISM:", harness_problem)
             continue
+        address_sensitive = attempts > 1
         lt["segments"] = lt["segments"][: cj + 1]
         small, used = lt, 0
-        if not a.no_shrink:
-            small, used = shrink_lifetime(prop, m, lt, vc, repo, tier)
-        final = run_lifetime(prop, small, repo, tier)
+        if not a.no_shrink and not address_sensitive:
+            small, used = shrink_lifetime(prop, m, lt, vc, repo, tier, table=tbl)
+        final = run_lifetime(prop, small, repo, tier, table=tbl)
         fj, fv = first_violation(m, final)
         if fv is None or m.violation_class(fv) != vc:
             small, final, fj, fv = lt, conf, cj, cv
         os.makedirs(os.path.join(VERIF, "replays"), exist_ok=True)
         path = os.path.join(VERIF, "replays", f"{prop}-{lifetimes[L]['seed']}-{j}.json")
         with open(path, "w") as f:
-            json.dump({"property": prop, "verif_seed": seed, "lifetime_index": L, "segment_index": j, "vclass": vc, "violation": fv,
+            json.dump({"property": prop, "verif_seed": seed, "tier": tier, "reference_table": tbl, "lifetime_index": L, "segment_index": j, "vclass": vc, "violation": fv,
                        "digests": [r.get("digest") for r in final if r is not None], "lifetime": small,
                        "original": {"segments": len(lt["segments"]), "ops": sum(len(s["ops"]) for s in lt["segments"])},
                        "minimised": {"segments": len(small["segments"]), "ops": sum(len(s["ops"]) for s in small["segments"])},
-                       "shrink_tests": used, "describe": [m.describe(s) for s in small["segments"]], "histories_with_this_class": len(where)}, f, indent=1)
+                       "shrink_tests": used, "describe": [m.describe(s) for s in small["segments"]], "histories_with_this_class": len(where),
+                       "address_sensitive": address_sensitive, "confirm_attempts": attempts}, f, indent=1)
         rc = replay(prop, m, path, repo, quiet=True)
         if rc != 1:
             harness_problem = f"replay file {path} did not reproduce (rc={rc})"
@@ -726,7 +751,18 @@ def aggregate(m, okr):
 def replay(prop, m, path, repo, quiet=False):
     rp = json.load(open(path))
     lt = rp["lifetime"]
-    res = run_lifetime(prop, lt, repo, "thorough", detail=True)
+    # the batch's reference table travels with the file so that the node is driven exactly as it was
+    # (address-dependent failures need that); VERIF_FRESH_REFS=1 forks fresh references instead, which
+    # is what one wants when replaying an old file on a changed tree
+    tbl = None if os.environ.get("VERIF_FRESH_REFS") else rp.get("reference_table")
+    res = None
+    for attempt in range(1, 6 if rp.get("address_sensitive") else 2):
+        res = run_lifetime(prop, lt, repo, rp.get("tier", "thorough"), table=tbl)
+        _j, _v = first_violation(m, res)
+        if _v and (m.violation_class(_v) == rp["vclass"] or (rp.get("address_sensitive") and m.violation_class(_v)[:2] == rp["vclass"][:2])):
+            break
+    if rp.get("address_sensitive") and not quiet:
+        print(f"  (this failure depends on object addresses, which no seam controls; attempt {attempt} of at most 5)")
     if any(r is not None and r.get("status") not in ("ok",) for r in res):
         if not quiet:
             log("replay: harness error", [r for r in res if r is not None and r.get("status") != "ok"][:1])
@@ -737,7 +773,7 @@ def replay(prop, m, path, repo, quiet=False):
             print(f"  -- history {si} (seed {seg['seed']}, arm {seg['cfg'].get('arm')})")
             for ln in m.describe(seg):
                 print("     ", ln)
-    if v and m.violation_class(v) == rp["vclass"]:
+    if v and (m.violation_class(v) == rp["vclass"] or (rp.get("address_sensitive") and m.violation_class(v)[:2] == rp["vclass"][:2])):
         same = [r.get("digest") for r in res if r is not None] == rp.get("digests")
         if not quiet:
             print("  violation:", json.dumps({k: v[k] for k in v if k not in ("before", "after", "history_fp", "reference_fp")}))
